@@ -53,7 +53,10 @@ def algebra_model():
           "Definition show (d : dom) : N * N := match d with Explicit i => (0, i) | Inferred i => (1, i) | Implicit => (2, 0) | DNone => (3, 0) end.\n" \
           "Definition run (p : dom * dom) := let (a, b) := p in (compatible a b, show (merge a b), compatible b a, show (merge b a)).\n"
     terms = ["(%s, %s)" % (ALG_COQ[a], ALG_COQ[b]) for a in ALG for b in ALG]
-    vals = C.coq_eval_sharded("c16_alg_%d" % os.getpid(), pre, terms, lambda l: "map run %s" % l, shard=100)
+    try:
+        vals = C.coq_eval_sharded("c16_alg_%d" % os.getpid(), pre, terms, lambda l: "map run %s" % l, shard=100)
+    finally:
+        _cleanup_cases("c16_alg_%d" % os.getpid())
     out = []
     for v in vals:
         def sd(p):
@@ -66,12 +69,25 @@ def algebra_impl(binary):
     return C.run_lines(binary, ["D %s %s" % (a, b) for a in ALG for b in ALG], nshards=1)
 
 
+def _cleanup_cases(name):
+    """the per-process case files are unique by pid; remove them after use"""
+    import glob
+    for p in glob.glob(os.path.join(C.WORK, "cases", name + "_*.v")):
+        try:
+            os.remove(p)
+        except OSError:
+            pass
+
+
 def model_eval(designs, name=None):
     name = name or "c16_%d" % os.getpid()    # unique: runs for several trees may overlap
     pre = "From Coq Require Import NArith List.\nImport ListNotations.\nFrom VV Require Import Analysis.ClockDomainModel Analysis.CdcDesign.\nOpen Scope N_scope.\n" \
           "Definition run (d : env * list item) := verdicts (fst d) (snd d).\n"
     terms = [d.coq() for d in designs]
-    vals = C.coq_eval_sharded(name, pre, terms, lambda l: "map run %s" % l, shard=60)
+    try:
+        vals = C.coq_eval_sharded(name, pre, terms, lambda l: "map run %s" % l, shard=60)
+    finally:
+        _cleanup_cases(name)
     return [(list(v[0]), list(v[1]), list(v[2])) for v in vals]
 
 
@@ -256,8 +272,9 @@ def run(tier, seed, replay):
 
     # (3) generated designs
     rng = random.Random(seed * 104729 + 16)
-    n = 1200 if tier == "quick" else 20000
-    nrev = 60 if tier == "quick" else 600
+    n = 800 if tier == "quick" else 20000
+    nrev = 50 if tier == "quick" else 600
+    nlay = 120 if tier == "quick" else 2000
     gen = G.CdcGen(rng)
     designs = []
     for i in range(n):
@@ -269,6 +286,11 @@ def run(tier, seed, replay):
         d = gen.design("reversed")
         d.veryl()
         d.stream = "reversed"
+        designs.append(d)
+    for i in range(nlay):
+        d = gen.design("layout")
+        d.veryl()
+        d.stream = "layout"
         designs.append(d)
     impl = G.analyze(binary, [d.text for d in designs])
     try:
